@@ -245,9 +245,8 @@ filter except those that observe the Go representation (`reprFilters`: the value
 filters `json`, `inspect`, `type`; `uniq` was one of them until `fixes/nested-drops-resolved`: `uniq_respects`)
 respect it (`filterRespects_std`: exactly, all but `sort`,
 `sort_natural` and `reprFilters`; `filterRespects_std_upto`: up to `unmodelled`, all but `reprFilters`). Drops *inside*
-containers (`d = true`) are covered as well — the output layer, the comparisons and every filter but `sort` and
-`sort_natural` (which do NOT respect them when given a key) and `reprFilters`: the last part of this file,
-`run_std_rep_independent_nested_drops`. -/
+containers (`d = true`) are covered as well — the output layer, the comparisons and every filter but `sort_natural`
+(not done) and `reprFilters`: the last part of this file, `run_std_rep_independent_nested_drops`. -/
 
 /-- **C18 for the standard configuration** (partial). `allowed` says which filters are registered
 on the engine (`stdPrimsOnly allowed`; with `fun _ => true` it is `stdPrims`). Rendering any
@@ -267,8 +266,7 @@ and why (each with an evaluated counterexample below):
   Go's insertion sort, modelled exactly — they respect the equivalence exactly:
   `sortWith_rel_short`, `sortNaturalWith_rel_short`);
 * `d = false`: for `ERel true` (drops nested in containers) see `run_std_rep_independent_nested_drops` at the end of
-  this file: the same statement, without `sort` and `sort_natural` in addition (with a key argument they do not
-  respect nested drops: evaluated counterexamples there). -/
+  this file: the same statement, without `sort_natural` in addition (its congruence is proved for `d = false` only). -/
 theorem run_std_rep_independent_partial (allowed : Bytes → Bool) (hrepr : ∀ n ∈ reprFilters, allowed n = false)
     (cfg : Cfg) (fs : FS) (fuel : Nat) (src : Bytes) (line : Nat) (env env' : Env)
     (he : ∀ x, ERel false (env.get x) (env'.get x)) :
@@ -426,8 +424,8 @@ example :
 
 /-! ## Drops nested in containers (`d = true`): the standard comparison and filter layer
 
-Operation by operation (each decided on the model and on the real engine of /repo, e3953ba, with a drop inside an
-array or a map against the value it yields):
+Operation by operation (each decided on the model and on the real engine of /repo with a drop inside an array or a
+map against the value it yields):
 
 * `==`, `!=`, `<`, `>`, `<=`, `>=`, `contains`, `case`/`when`: respect nested drops — `values.Equal` applies `ToLiquid`
   (which follows a chain of drops) to both operands at every depth (`Cmp.equalAux_pn_left/right`, `Cmp.opEq_prep_vrel`,
@@ -440,20 +438,24 @@ array or a map against the value it yields):
   and every filter with scalar parameters only (the string, number and date filters: `Convert` to string prints
   `fmt.Sprint(values.ResolveDrops(·))`): respect them (`filterRespects_std t true`). `Convert` to `[]any` passes every
   element through `ToLiquid` (`convElems_noDrops`), so a drop that yields nil IS nil for `compact` and `join`;
-* `sort` and `sort_natural` with a key argument do NOT: `sortableByProperty.Less` tests the entry `m[key]` for `nil`
-  BEFORE `ToLiquid` (a drop that yields nil is not nil there and is not sorted first), and both filters take the name
-  of the key as `fmt.Sprint(key)` WITHOUT `ResolveDrops` (a key that is an array holding a drop prints its Go
-  struct). Three evaluated counterexamples below, each confirmed on the real engine. (Without a key argument — and
-  `sort_natural` with a string key — they compare through `ToLiquid` / `ResolveDrops` and no difference was found;
-  that sub-case is not proved: both filters are excluded as a whole, like `json`, `inspect`, `type`.) -/
+* `sort` and `sort: key` respect them since `fixes/sort-key-drops` (`ArrF.sort_respects d`, up to the `unmodelled` tie
+  order beyond 12 elements): `Less` compares through `ToLiquid`; `sortableByProperty.Less` now passes the entry
+  `m[key]` through `ToLiquid` BEFORE its nil test, and the name of the key is `fmt.Sprint(values.ResolveDrops(key))`.
+  Before that repair `sort: key` did NOT (a drop that yields nil was not sorted first; a key that is an array holding a
+  drop printed the drop's Go struct) and `sort_natural: key` did not either (the same name); the three former
+  counterexamples are theorems of the opposite statement below;
+* `sort_natural`: NOT DONE for `d = true` (`Proofs/RepEqSort.lean` proves it for `d = false`); after the repair no
+  difference is known on the real engine. It is left out of the theorem together with `json`, `inspect`, `type`
+  (`nestedDropsOpen`). -/
 
-/-- *The standard comparison and filter layer respects drops nested in containers*, on an engine without `sort`,
-`sort_natural`, `json`, `inspect`, `type` (`openFilters`): related operands (`VRel true`: the same Liquid value, any Go
+/-- *The standard comparison and filter layer respects drops nested in containers*, on an engine without
+`sort_natural`, `json`, `inspect`, `type` (`nestedDropsOpen`): related operands (`VRel true`: the same Liquid value, any Go
 representation, drops at any depth) compare alike under `==`, `<`, `contains` and `case`/`when`, and related filter
 inputs give related results — up to `unmodelled` results (`t = true`). -/
-theorem stdPrims_respect_nested_drops (allowed : Bytes → Bool) (hopen : ∀ n ∈ openFilters, allowed n = false) :
+theorem stdPrims_respect_nested_drops (allowed : Bytes → Bool) (hopen : ∀ n ∈ nestedDropsOpen, allowed n = false) :
     PrimsRespect true true (stdPrimsOnly allowed) :=
-  stdPrimsOnly_respects allowed (fun n hn ha => by rw [hopen n hn] at ha; cases ha)
+  stdPrimsOnly_respects allowed (fun n _ ha => filterRespects_std_nested n (fun hn => by
+    rw [hopen n hn] at ha; cases ha))
 
 /-- every standard filter except `sort`, `sort_natural`, `json`, `inspect`, `type` respects nested drops exactly
     (no `unmodelled` escape), whatever name is asked for -/
@@ -461,53 +463,54 @@ theorem std_filter_respects_nested_drops (name : Bytes) (h : name ∉ openFilter
   filterRespects_std false true name h
 
 /-- **C18 for the standard configuration with drops nested in containers** (partial: `allowed` must exclude
-`openFilters`). Full statement wanted: the same for `stdPrims` (every filter registered). What is missing, and why:
+`nestedDropsOpen`). Full statement wanted: the same for `stdPrims` (every filter registered). What is missing, and why:
 * `json`, `inspect`, `type` observe the Go representation (counterexamples above; `{{ m | json }}` with
   `m = {"a": Drop(1)}` is `{"a":{}}`);
-* `sort: key` and `sort_natural: key` do not respect nested drops (three evaluated counterexamples below);
-* NOT DONE: `sort` and `sort_natural` without a key argument, and `sort_natural` with a key that is a string, on
-  values with nested drops (no difference found on the real engine; `Proofs/RepEqSort.lean` is proved for `d = false`). -/
-theorem run_std_rep_independent_nested_drops_partial (allowed : Bytes → Bool) (hopen : ∀ n ∈ openFilters, allowed n = false)
+* NOT DONE: `sort_natural` on values with nested drops (no difference known on the real engine after
+  `fixes/sort-key-drops`; `Proofs/RepEqSort.lean` proves its congruence for `d = false`). -/
+theorem run_std_rep_independent_nested_drops_partial (allowed : Bytes → Bool) (hopen : ∀ n ∈ nestedDropsOpen, allowed n = false)
     (cfg : Cfg) (fs : FS) (fuel : Nat) (src : Bytes) (line : Nat) (env env' : Env)
     (he : ∀ x, ERel true (env.get x) (env'.get x)) :
     RunAgree true (run (stdPrimsOnly allowed) stdOut cfg fs fuel src line env)
       (run (stdPrimsOnly allowed) stdOut cfg fs fuel src line env') :=
   run_rel _ _ cfg fs fuel (stdPrims_respect_nested_drops allowed hopen) (stdOut_respects true true) src line he
 
-/-- **C18 with nested drops, for the standard engine without `sort`, `sort_natural`, `json`, `inspect`, `type`**
-(`coreFilters`): no hypothesis left. Every template, every configuration, file system and include depth: two
+/-- **C18 with nested drops, for the standard engine without `sort_natural`, `json`, `inspect`, `type`**
+(`withoutNestedOpen`): no hypothesis left. Every template, every configuration, file system and include depth: two
 environments whose bindings have the same Liquid values in any Go representation — typed or generic slices and maps,
 fixed arrays, drops (and drops that yield drops) at ANY depth of arrays and maps, drops and pointers around a binding
 — render to agreeing results (`RunAgree true`: the same output or the same error, or one of the two runs is outside
 the model). -/
 theorem run_std_rep_independent_nested_drops (cfg : Cfg) (fs : FS) (fuel : Nat) (src : Bytes) (line : Nat) (env env' : Env)
     (he : ∀ x, ERel true (env.get x) (env'.get x)) :
-    RunAgree true (run (stdPrimsOnly coreFilters) stdOut cfg fs fuel src line env)
-      (run (stdPrimsOnly coreFilters) stdOut cfg fs fuel src line env') :=
-  run_std_rep_independent_nested_drops_partial coreFilters (fun n hn => by simp [coreFilters, hn]) cfg fs fuel src line env env' he
+    RunAgree true (run (stdPrimsOnly withoutNestedOpen) stdOut cfg fs fuel src line env)
+      (run (stdPrimsOnly withoutNestedOpen) stdOut cfg fs fuel src line env') :=
+  run_std_rep_independent_nested_drops_partial withoutNestedOpen (fun n hn => by simp [withoutNestedOpen, hn]) cfg fs fuel src line env env' he
 
 /-- the same with the hypothesis spelled on values: bindings related by `VRel true`, none of them the renderer's own
     `forloop` record (which no caller can build) -/
 theorem run_std_rep_independent_nested_drops_vrel (cfg : Cfg) (fs : FS) (fuel : Nat) (src : Bytes) (line : Nat) (env env' : Env)
     (he : ∀ x, VRel true (env.get x) (env'.get x)) (hr : ∀ x, isRec (env.get x) = false) (hr' : ∀ x, isRec (env'.get x) = false) :
-    RunAgree true (run (stdPrimsOnly coreFilters) stdOut cfg fs fuel src line env)
-      (run (stdPrimsOnly coreFilters) stdOut cfg fs fuel src line env') :=
+    RunAgree true (run (stdPrimsOnly withoutNestedOpen) stdOut cfg fs fuel src line env)
+      (run (stdPrimsOnly withoutNestedOpen) stdOut cfg fs fuel src line env') :=
   run_std_rep_independent_nested_drops cfg fs fuel src line env env'
     (fun x => binding_related_of_unwrap (he x) (hr x) (hr' x))
 
-/-- `uniq`, `compact`, `join`, `map`, `first` are on that engine; `sort` is not -/
-example : coreFilters (ArrF.bn "uniq") = true ∧ coreFilters (ArrF.bn "compact") = true ∧ coreFilters (ArrF.bn "join") = true ∧
-    coreFilters (ArrF.bn "map") = true ∧ coreFilters (ArrF.bn "first") = true ∧ coreFilters (ArrF.bn "sort") = false := by
+/-- `sort`, `uniq`, `compact`, `join`, `map`, `first` are on that engine; `sort_natural` is not -/
+example : withoutNestedOpen (ArrF.bn "sort") = true ∧ withoutNestedOpen (ArrF.bn "uniq") = true ∧
+    withoutNestedOpen (ArrF.bn "compact") = true ∧ withoutNestedOpen (ArrF.bn "join") = true ∧
+    withoutNestedOpen (ArrF.bn "map") = true ∧ withoutNestedOpen (ArrF.bn "first") = true ∧
+    withoutNestedOpen (ArrF.bn "sort_natural") = false := by
   decide +kernel
 
 /-- a concrete instance: `m` is a map holding a typed array that holds a drop of a drop — against the generic map of
     the generic array of the value —, template `{{ m.a | join }}{% if m.a contains 1 %}y{% endif %}` -/
 example (cfg : Cfg) (fs : FS) (fuel : Nat) :
     RunAgree true
-      (run (stdPrimsOnly coreFilters) stdOut cfg fs fuel
+      (run (stdPrimsOnly withoutNestedOpen) stdOut cfg fs fuel
         [123, 123, 32, 109, 46, 97, 32, 124, 32, 106, 111, 105, 110, 32, 125, 125, 123, 37, 32, 105, 102, 32, 109, 46, 97, 32, 99, 111, 110, 116, 97, 105, 110, 115, 32, 49, 32, 37, 125, 121, 123, 37, 32, 101, 110, 100, 105, 102, 32, 37, 125] 1
         [([109], .map .str (.slice .any) [(.str [97], .array .any [.drop (.drop (.int .int 1)), .int .i8 2])])])
-      (run (stdPrimsOnly coreFilters) stdOut cfg fs fuel
+      (run (stdPrimsOnly withoutNestedOpen) stdOut cfg fs fuel
         [123, 123, 32, 109, 46, 97, 32, 124, 32, 106, 111, 105, 110, 32, 125, 125, 123, 37, 32, 105, 102, 32, 109, 46, 97, 32, 99, 111, 110, 116, 97, 105, 110, 115, 32, 49, 32, 37, 125, 121, 123, 37, 32, 101, 110, 100, 105, 102, 32, 37, 125] 1
         [([109], .map .str .any [(.str [97], .slice .any [.int .int 1, .int .i8 2])])]) := by
   refine run_std_rep_independent_nested_drops cfg fs fuel _ 1 _ _ (fun y => ?_)
@@ -526,17 +529,20 @@ example :
     lenOfRes (stdPrims.applyFilter (ArrF.bn "compact") (.slice .any [.int .int 1, .drop .nil, .int .int 2]) []) = 2 := by
   decide +kernel
 
-/-! ### `sort: key` and `sort_natural: key` do not respect nested drops (counterexamples, each run on the real engine) -/
+/-! ### `sort: key` and `sort_natural: key`: the two deviations repaired by `fixes/sort-key-drops` (DESIGN 7.1c)
 
-/-- *`sort` by a key tests the entry for nil before `ToLiquid`.* Template `{{ a | sort: "k" | map: "n" | join }}` with
-`a = [{"k": 1, "n": "x"}, {"k": Drop(nil), "n": "y"}]` renders `x y`, with `a = [{"k": 1, "n": "x"}, {"k": nil, "n": "y"}]`
-it renders `y x` (nil first): `sortableByProperty.Less` compares `index(i) == nil` on the raw map entry. -/
-example :
+Each was an evaluated counterexample here (the two renders differ, confirmed on the real engine of e3953ba); each is
+now the opposite statement, evaluated on the same template and the same two bindings. -/
+
+/-- *`sort` by a key: an entry that is a drop yielding nil is nil.* Template `{{ a | sort: "k" | map: "n" | join }}` with
+`a = [{"k": 1, "n": "x"}, {"k": Drop(nil), "n": "y"}]` renders `y x` (nil first), as with `{"k": nil, "n": "y"}` (it
+rendered `x y`): `sortableByProperty.Less` passes the entry through `ToLiquid` before the nil test. -/
+theorem sort_key_drop_nil_repaired :
     strOfRes ((stdPrims.applyFilter (ArrF.bn "sort") (.slice .any [
         .map .str .any [(.str [107], .int .int 1), (.str [110], .str [120])],
         .map .str .any [(.str [107], .drop .nil), (.str [110], .str [121])]]) [.str [107]]).bind fun s =>
       (stdPrims.applyFilter (ArrF.bn "map") s [.str [110]]).bind fun m => stdPrims.applyFilter (ArrF.bn "join") m [])
-      = [120, 32, 121] ∧
+      = [121, 32, 120] ∧
     strOfRes ((stdPrims.applyFilter (ArrF.bn "sort") (.slice .any [
         .map .str .any [(.str [107], .int .int 1), (.str [110], .str [120])],
         .map .str .any [(.str [107], .nil), (.str [110], .str [121])]]) [.str [107]]).bind fun s =>
@@ -544,15 +550,15 @@ example :
       = [121, 32, 120] := by
   decide +kernel
 
-/-- *`sort` takes the name of the key as `fmt.Sprint(key)`, drops unresolved.* Template
-`{{ a | sort: k | map: "n" | join }}` with `a = [{"[1]": 2, "n": "x"}, {"[1]": 1, "n": "y"}]`: with `k = [Drop(1)]` it
-renders `x y` (the key is named `[{1}]`: no such entry), with `k = [1]` it renders `y x` (sorted by the entry `[1]`). -/
-example :
+/-- *`sort` names its key by `fmt.Sprint(values.ResolveDrops(key))`.* Template `{{ a | sort: k | map: "n" | join }}` with
+`a = [{"[1]": 2, "n": "x"}, {"[1]": 1, "n": "y"}]`: with `k = [Drop(1)]` it renders `y x`, as with `k = [1]` (it rendered
+`x y`: the key was named `[{1}]`). -/
+theorem sort_key_name_drops_repaired :
     strOfRes ((stdPrims.applyFilter (ArrF.bn "sort") (.slice .any [
         .map .str .any [(.str [91, 49, 93], .int .int 2), (.str [110], .str [120])],
         .map .str .any [(.str [91, 49, 93], .int .int 1), (.str [110], .str [121])]]) [.slice .any [.drop (.int .int 1)]]).bind fun s =>
       (stdPrims.applyFilter (ArrF.bn "map") s [.str [110]]).bind fun m => stdPrims.applyFilter (ArrF.bn "join") m [])
-      = [120, 32, 121] ∧
+      = [121, 32, 120] ∧
     strOfRes ((stdPrims.applyFilter (ArrF.bn "sort") (.slice .any [
         .map .str .any [(.str [91, 49, 93], .int .int 2), (.str [110], .str [120])],
         .map .str .any [(.str [91, 49, 93], .int .int 1), (.str [110], .str [121])]]) [.slice .any [.int .int 1]]).bind fun s =>
@@ -561,13 +567,13 @@ example :
   decide +kernel
 
 /-- *`sort_natural` likewise.* Template `{{ a | sort_natural: k | map: "n" | join }}` with
-`a = [{"[1]": "b", "n": "x"}, {"[1]": "a", "n": "y"}]`: with `k = [Drop(1)]` it renders `x y`, with `k = [1]` it renders `y x`. -/
-example :
+`a = [{"[1]": "b", "n": "x"}, {"[1]": "a", "n": "y"}]`: with `k = [Drop(1)]` it renders `y x`, as with `k = [1]` (it rendered `x y`). -/
+theorem sort_natural_key_name_drops_repaired :
     strOfRes ((stdPrims.applyFilter (ArrF.bn "sort_natural") (.slice .any [
         .map .str .any [(.str [91, 49, 93], .str [98]), (.str [110], .str [120])],
         .map .str .any [(.str [91, 49, 93], .str [97]), (.str [110], .str [121])]]) [.slice .any [.drop (.int .int 1)]]).bind fun s =>
       (stdPrims.applyFilter (ArrF.bn "map") s [.str [110]]).bind fun m => stdPrims.applyFilter (ArrF.bn "join") m [])
-      = [120, 32, 121] ∧
+      = [121, 32, 120] ∧
     strOfRes ((stdPrims.applyFilter (ArrF.bn "sort_natural") (.slice .any [
         .map .str .any [(.str [91, 49, 93], .str [98]), (.str [110], .str [120])],
         .map .str .any [(.str [91, 49, 93], .str [97]), (.str [110], .str [121])]]) [.slice .any [.int .int 1]]).bind fun s =>
